@@ -9,7 +9,7 @@ PROP = "C18"
 def run(tier):
     c = Check(PROP, tier)
     cov = bindgen.run_c18(c, tier)
-    c.assumptions += ["cbindgen is not installed: headers are synthetic (tools/cbgen.py)", "C mode only in this round (C++11 compile check not exercised)"]
+    c.assumptions += ["cbindgen is not installed: headers are synthetic (tools/cbgen.py, tools/cbgen_cpp.py)", "C++ space excludes the configuration 'default container without default context' (see C17)"]
     c.finish(cov)
 
 
